@@ -48,7 +48,8 @@ RULE = (
     "VALUES first), INSERT from SELECT, UPDATE/DELETE..RETURNING; anonymous binds (named after "
     "columns x, x_1, y), explicit names from a pool that needs escaping (% ( ) : [ ] . blank) and that collides "
     "after escaping or after expansion, repeated binds (same object twice), expanding IN of length 0..4 (also "
-    "literal_execute), literal_execute scalars, values overridden at execute(); plus dedicated families for the four "
+    "literal_execute), literal_execute scalars, values overridden at execute(), binds typed with a TypeDecorator whose "
+    "bind processor sends v to 10 v + k (plain and expanding, also with names that need escaping); plus dedicated families for the four "
     "defective regions (escape collision - also with an expanding / literal_execute partner, expanded-name collision, "
     "literal_execute with an escaped name, one name used with and without literal_execute) and for a scalar passed to "
     "an expanding bind.  Each case is run under all six paramstyles.  non-trivial = the statement "
@@ -68,7 +69,9 @@ TRUSTED = [
 ASSUMPTIONS = [
     "two BindParameter objects with one name carry the same value (SQLAlchemy treats them as one parameter); if only one "
     "of them is literal_execute the case is outside the guard (refuted, known finding)",
-    "bind values are integers / lists of integers; types without bind processors, bind_expression or bind casts",
+    "bind values are integers / lists of integers; bind processors are modelled as per-bind functions (exercised with "
+    "Integer TypeDecorators), no bind_expression, bind casts or tuple types (see finding C04-tuple-expanding-reused); "
+    "typed binds are not literal_execute (their literal rendering is the type's literal processor, kept opaque)",
     "text between placeholders contains no text that itself looks like a placeholder (C06 finding "
     "C06-bind-pattern-in-name-positional covers that)",
     "insertmanyvalues batch rewriting (executemany) is C12; here a single parameter set is executed",
@@ -212,8 +215,8 @@ def translate(repo, outdir):
         "Proof. exact (needs_esc_esc gen_tab gen_tab_closed). Qed.\n"
         "Theorem gen_c04_escape_collides : exists a b, a <> b /\\ esc gen_tab a = esc gen_tab b.\n"
         "Proof. exact (esc_not_injective gen_tab gen_tab_closed gen_tab_nontrivial). Qed.\n"
-        "Theorem gen_c04_all_styles : forall lit empty ps inp, guard gen_tab inp = true ->\n"
-        "  exists ts fp sp, run gen_tab lit empty ps inp = Ok (ts, fp) /\\ inline_spec lit empty inp = Some sp /\\\n"
+        "Theorem gen_c04_all_styles : forall lit empty proc ps inp, guard gen_tab inp = true ->\n"
+        "  exists ts fp sp, run gen_tab lit empty proc ps inp = Ok (ts, fp) /\\ inline_spec lit empty proc inp = Some sp /\\\n"
         "                   inline ps ts fp = Some sp.\n"
         "Proof. exact (all_styles gen_tab). Qed.\n"
         "Print Assumptions gen_c04_all_styles.\n"
@@ -261,6 +264,8 @@ def _gen_bind(rng, R, expanding=False, le=None):
     else:
         v = rng.randint(0, 12)
     b = {"n": name, "v": v, "u": int(name is None or rng.random() < 0.3), "le": int(le), "ex": int(expanding)}
+    if not le and rng.random() < 0.3:
+        b["t"] = rng.randint(1, 3)  # a type with a bind processor (v -> 10 v + t)
     binds.append(b)
     return len(binds) - 1
 
@@ -360,6 +365,36 @@ def gen_recipe(rng, kind=None, pool=None):
 
 
 _LIT = None
+_PROC = {}
+
+
+def _proc_type(k):
+    """Integer TypeDecorator whose bind processor sends v to 10 v + k (ParamsRun.run_proc); 0 = plain Integer"""
+    import sqlalchemy as sa
+
+    if not k:
+        return sa.Integer
+    if k not in _PROC:
+        from sqlalchemy.types import TypeDecorator
+
+        class Proc(TypeDecorator):
+            impl = sa.Integer
+            cache_ok = True
+            proc_id = k
+
+            def process_bind_param(self, value, dialect):
+                return None if value is None else value * 10 + self.proc_id
+
+        Proc.__name__ = "Proc%d" % k
+        _PROC[k] = Proc
+    return _PROC[k]
+
+
+def _processed(b, v):
+    k = b.get("t", 0)
+    if not k:
+        return v
+    return [x * 10 + k for x in v] if isinstance(v, (list, tuple)) else v * 10 + k
 
 
 def _lit_class():
@@ -395,8 +430,9 @@ def build(R, final=False):
     objs = {}
 
     def val(i):
+        """the value that must reach the placeholder(s) of bind i: the given value after its bind processor"""
         b = R["binds"][i]
-        return R["ov"][b["n"]] if b["n"] in R["ov"] else b["v"]
+        return _processed(b, R["ov"][b["n"]] if b["n"] in R["ov"] else b["v"])
 
     def lc(v):
         # ground truth: the value written into the statement text, independent of any bind machinery
@@ -407,8 +443,11 @@ def build(R, final=False):
             return lc(val(i))
         if i not in objs:
             b = R["binds"][i]
+            tuples = bool(b["ex"]) and any(isinstance(x, (list, tuple)) for x in b["v"])
             objs[i] = sa.bindparam(
-                b["n"], b["v"], type_=sa.Integer, unique=bool(b["u"]), literal_execute=bool(b["le"]), expanding=bool(b["ex"])
+                b["n"], [tuple(x) for x in b["v"]] if tuples else b["v"],
+                type_=None if tuples else _proc_type(b.get("t", 0)),  # untyped: takes the tuple type of its IN
+                unique=bool(b["u"]), literal_execute=bool(b["le"]), expanding=bool(b["ex"]),
             )
         return objs[i]
 
@@ -443,6 +482,12 @@ def build(R, final=False):
             return in_list(tb.c[c[1]], val(c[2])) if final else tb.c[c[1]].in_(bp(c[2]))
         if c[0] == "inl":
             return in_list(tb.c[c[1]], c[2], bool(c[3]))
+        if c[0] == "tin":
+            # (col1, col2) IN <expanding bind of pairs>; outside the Coq model (cases carry "model": false)
+            tup = sa.tuple_(tb.c[c[1]], tb.c[c[2]])
+            if final:
+                return tup.in_([tuple(int(x) for x in pr) for pr in val(c[3])])  # rendered by literal_binds
+            return tup.in_(bp(c[3]))
         if c[0] == "not":
             return sa.not_(cr(c[1], tb))
         return (sa.and_ if c[0] == "and" else sa.or_)(cr(c[1], tb), cr(c[2], tb))
@@ -529,9 +574,20 @@ def _rec_compiler():
     return _REC
 
 
+def _uses_tuple(x):
+    if isinstance(x, dict):
+        return any(_uses_tuple(v) for v in x.values())
+    if isinstance(x, list):
+        return (len(x) > 0 and x[0] == "tin") or any(_uses_tuple(v) for v in x)
+    return False
+
+
 def derive_one(R):
     """recipe -> model input tree (or {"err": ...} when the statement does not compile at all)"""
     from sqlalchemy.dialects import sqlite
+
+    if _uses_tuple(R):
+        return {"in": [], "model": False}  # tuple-typed expanding binds are not modelled: oracle only
 
     stmt, ov = build(R)
     d = sqlite.dialect(paramstyle="numeric")
@@ -563,7 +619,13 @@ def derive_one(R):
     vb = c._values_bindparam
     values = [[pack(str(n)) for n in vb]] if (c._insertmanyvalues and vb is not None) else []
     pc = int(bool(c.literal_execute_params or c.post_compile_params))
-    return {"in": [toks, [pack(n) for n in order], kinds, values, params, pc]}
+    procs = []
+    for n in c._bind_processors:
+        pid = getattr(c.binds[n].type, "proc_id", None)
+        if pid is None:
+            raise RuntimeError("bind %r of type %r has a bind processor the model does not know" % (n, c.binds[n].type))
+        procs.append([pack(str(n)), int(pid)])
+    return {"in": [toks, [pack(n) for n in order], kinds, values, params, pc, procs]}
 
 
 def derive(path):
@@ -592,7 +654,10 @@ def _derive_cases(recs):
     out = []
     for (r, kind), d in zip(recs, ins):
         if "in" in d:
-            out.append({"in": d["in"], "recipe": r, "kind": kind})
+            c = {"in": d["in"], "recipe": r, "kind": kind}
+            if d.get("model") is False:
+                c["model"] = False
+            out.append(c)
     return out
 
 
@@ -656,6 +721,30 @@ def _family_recipes(rng, n):
              "ov": {}, "cols": [["c", "y"]], "where": ["and", ["cmp", "ge", ["c", "x"], ["b", 0]], ["cmp", "le", ["c", "y"], ["b", 1]]],
              "order": None, "limit": None, "offset": None}
         out.append((R, "same-name-mixed-literal-execute"))
+    for _ in range(n):
+        # typed binds (bind processor) whose names need escaping, plain and expanding, some given at execute()
+        nm = rng.sample(["a b", "pct%", "c:d", "(par)", "x[1]", "w.z w", "q"], 3)
+        R = {"k": "select", "binds": [
+            {"n": nm[0], "v": rng.randint(0, 9), "u": 0, "le": 0, "ex": 0, "t": rng.randint(1, 3)},
+            {"n": nm[1], "v": [rng.randint(0, 9) for _ in range(rng.randint(0, 3))], "u": 0, "le": 0, "ex": 1, "t": rng.randint(1, 3)},
+            {"n": nm[2], "v": rng.randint(0, 9), "u": 0, "le": 0, "ex": 0, "t": rng.choice([0, 1, 2])}], "ov": {},
+            "cols": [["add", ["c", "x"], ["b", 0]]],
+            "where": ["or", ["in", "y", 1], ["cmp", "le", ["add", ["c", "z"], ["b", 2]], ["b", 0]]],
+            "order": None, "limit": None, "offset": None}
+        if rng.random() < 0.4:
+            R["ov"][nm[0]] = rng.randint(0, 9)
+        if rng.random() < 0.3:
+            R["ov"][nm[1]] = [rng.randint(0, 9) for _ in range(rng.randint(1, 2))]
+        out.append((R, "typed-escaped"))
+    for i in range(max(2, n // 3)):
+        # tuple-typed expanding bind, used once or twice (not modelled; oracle only)
+        prs = [[rng.randint(0, 9), rng.randint(0, 9)] for _ in range(rng.randint(1, 3))]
+        w = ["tin", "x", "y", 0]
+        if i % 2:
+            w = ["or", w, ["tin", "y", "z", 0]]
+        R = {"k": "select", "binds": [{"n": rng.choice(["tp", "t p"]), "v": prs, "u": 0, "le": 0, "ex": 1}, {"n": "q", "v": 3, "u": 0, "le": 0, "ex": 0}],
+             "ov": {}, "cols": [["b", 1]], "where": w, "order": None, "limit": None, "offset": None}
+        out.append((R, "tuple-in"))
     for _ in range(max(1, n // 3)):
         R = {"k": "select", "binds": [{"n": "p", "v": [1, 2], "u": 0, "le": 0, "ex": 1}], "ov": {"p": rng.randint(1, 9)},
              "cols": [["c", "y"]], "where": ["in", "x", 0], "order": None, "limit": None, "offset": None, "misuse": 1}
@@ -688,7 +777,7 @@ def search_cases(rng, tier):
 
 
 def _decode_in(c):
-    toks, order, kinds, values, params, _pc = c["in"]
+    toks, order, kinds, values, params, _pc, _procs = c["in"]
     return (
         [(k, unpack(s)) for k, s in toks],
         [unpack(s) for s in order],
@@ -699,6 +788,8 @@ def _decode_in(c):
 
 
 def nontrivial(c):
+    if not c["in"]:
+        return False
     toks, order, kinds, values, params = _decode_in(c)
     occ = [n for k, n in toks if k != 0]
     if len(occ) < 3:
@@ -810,7 +901,9 @@ def impl(c):
             obs.append([1])
         except sa.exc.StatementError as e:
             o = getattr(e, "orig", None)
-            obs.append([2] if isinstance(o, KeyError) else [3] if isinstance(o, TypeError) else [9])
+            obs.append(
+                [2] if isinstance(o, KeyError) else [3] if isinstance(o, TypeError) else [1] if isinstance(o, AssertionError) else [9]
+            )
         except KeyError:
             obs.append([2])
         except TypeError:
@@ -946,6 +1039,22 @@ def _esc(n):
 
 
 def match_finding(c, what):
+    R = c.get("recipe") or {}
+    if _uses_tuple(R):
+        used = []
+
+        def walk(x):
+            if isinstance(x, list):
+                if x and x[0] == "tin":
+                    used.append(x[3])
+                for v in x:
+                    walk(v)
+            elif isinstance(x, dict):
+                for v in x.values():
+                    walk(v)
+
+        walk(R)
+        return "C04-tuple-expanding-reused" if len(set(used)) < len(used) else None
     try:
         toks, order, kinds, values, params = _decode_in(c)
     except Exception:
